@@ -120,7 +120,8 @@ def law_code(fmt, code):
     return code
 
 
-VALUES = [1e-10, 2.5e-9, 5.0, 300.0, 1.0, 1e300, 5e-324, 0.0, -0.0, 0.5, 1741.0]
+VALUES = [1e-10, 2.5e-9, 5.0, 300.0, 1.0, 1e300, 5e-324, 0.0, -0.0, 0.5, 1741.0,
+          1.2345678912345e-10, 12.345678912345, 0.123456789012, 2.9999999e-9]     # every digit of a coefficient counts
 
 
 def draw(rng):
@@ -139,7 +140,7 @@ def run(argv):
     chk = Check("C05", tier, seed, MODULES, THEOREMS, RULE)
     chk.prove()
     rng = chk.rng
-    reps = 6 if tier == "quick" else 60
+    reps = 8 if tier == "quick" else 60
     reset_species_state()
     reqs, pend, strings = [], [], []
     for fmt, code in cases():
@@ -157,7 +158,8 @@ def run(argv):
                 continue
             for rep in range(reps):
                 a, b, c = draw(rng), draw(rng), draw(rng)
-                fixed = [(1e-10, -0.5, -5.0), (1e-10, 0.0, 0.0), (2.5e-9, 0.5, 0.0), (2.5e-9, 0.0, 100.0), (3.0e-10, -0.0, -0.0)]
+                fixed = [(1e-10, -0.5, -5.0), (1e-10, 0.0, 0.0), (2.5e-9, 0.5, 0.0), (2.5e-9, 0.0, 100.0), (3.0e-10, -0.0, -0.0),
+                         (1.2345678912345e-10, 0.123456789012, 12.345678912345)]
                 if rep < len(fixed):
                     a, b, c = fixed[rep]          # the classic fusion case and every zero pattern first
                 r0.alpha, r0.beta, r0.gamma = a, b, c
